@@ -456,7 +456,8 @@ def run(ctx, rep, model=None):
     # ------------------------------------------------------------------ R04.2  (model evaluation of the two dispatchers)
     from .. import miniinterp as MI
     f_dump = ctx.func(BR + "._dump")
-    oprm = A.params(f_dump.node)[0]
+    oprm = B.obj_param(f_dump.node)
+    dump_stream_first = A.params(f_dump.node)[0] != oprm       # (the dispatcher takes (stream, obj) on this tree)
     rep.analysed(f_dump)
 
     _sent = {}
@@ -500,7 +501,8 @@ def run(ctx, rep, model=None):
         obj = MI.ModelObj("value", cls=tp)
         stream = []
         try:
-            MI.call_function(f_dump.node, [obj, stream], {"__globals__": glob, "__global_lookup__": sentinel_globals})
+            MI.call_function(f_dump.node, [stream, obj] if dump_stream_first else [obj, stream],
+                             {"__globals__": glob, "__global_lookup__": sentinel_globals})
             out = "returns"
         except MI.Raised as r_:
             out = "raises " + r_.name
@@ -508,7 +510,8 @@ def run(ctx, rep, model=None):
             rep.undecided("R04.2", "the dispatch of brine._dump", str(e_))
             bad_d = None
             break
-        good = (want != "refused" and out == "returns" and calls_d == [(want, obj, stream)] and not stream) or \
+        good = (want != "refused" and out == "returns" and len(calls_d) == 1 and calls_d[0][0] == want and len(calls_d[0]) == 3 and
+                any(x is obj for x in calls_d[0][1:]) and any(x is stream for x in calls_d[0][1:]) and not stream) or \
                (want == "refused" and out == "raises TypeError" and not stream and all(c[0] == "refused" for c in calls_d))
         if not good:
             bad_d.append("a value of %s: %s, calls %s, emitted %r" % (tp.name, out, [c[0] for c in calls_d], stream))
@@ -557,7 +560,7 @@ def run(ctx, rep, model=None):
             continue
         for c in A.find_calls(n.ast, "_dump"):
             if len(c.args) == 2:
-                buf = K.resolve_expr(rd_api, n, c.args[1])
+                buf = K.resolve_expr(rd_api, n, c.args[0 if dump_stream_first else 1])
                 okbuf = isinstance(buf, ast.List) and not buf.elts or (isinstance(buf, ast.Call) and A.call_name(buf) == "list" and not buf.args)
                 whyb = "the buffer handed to _dump is `%s`" % A.src(buf)[:60]
     rep.ob("R04.2", "brine.dump: the output buffer is created by the call itself", okbuf,
